@@ -384,7 +384,8 @@ func init() {
 			if tier == "thorough" {
 				pre, b = 2, 40*time.Minute
 			}
-			return []drv.Part{{Name: "close", Body: body, MaxDev: pre, ShardLevels: 3, Budget: b, Env: []string{"GOMAXPROCS=1"}}}
+			return []drv.Part{{Name: "close", Body: body, MaxDev: pre, ShardLevels: 3, Budget: b, Env: []string{"GOMAXPROCS=1"}},
+				drv.RacePart(pre+2, pre, b, body)}
 		},
 	})
 }
